@@ -923,6 +923,8 @@ class iindex(dict):
         # by deleting the target rowids from self...
         # TODO: benchmark doing this with set difference of each key with
         # all rows for same axes; would probably save memory but explode time.
+        # The first pass below deletes from self, which may be what we were given.
+        entries = dict(entries)
         other_cell_mask = numpy.zeros(self.shape, dtype=bool)
         for coords, new_rowids in entries.items():
             other_cell_mask[(new_rowids,) + coords[1:]] = True
